@@ -59,14 +59,25 @@ def main():
         raise SystemExit('compiler imported from ' + C.__file__)
     out = []
     for (pi, oi) in job['history']:
-        fn, dbg_parser, dbg_generator = job['options'][oi]
+        opt = job['options'][oi]
+        fn, dbg_parser, dbg_generator = opt[:3]
+        fail_at = opt[3] if len(opt) > 3 else None
+
+        class FailingStream(io.StringIO):
+            writes = 0
+
+            def write(self, text):
+                FailingStream.writes += 1
+                if fail_at is not None and FailingStream.writes >= fail_at:
+                    raise OSError(28, 'No space left on device')
+                return io.StringIO.write(self, text)
 
         class Ctx:
             debug_filename = bool(fn)
             debug_parser = dbg_parser
             debug_generator = dbg_generator
             current_source_file = fn
-            outf = io.StringIO()
+            outf = FailingStream()
         err = io.StringIO()
         real_err = sys.stderr
         sys.stderr = err            # ANTLR prints recoverable syntax errors there
